@@ -582,6 +582,20 @@ func TestC10Matrix(t *testing.T) {
 						}
 						run(t, Case{Property: prop, Kind: "diff", Expr: name + "(" + strings.Join(args, ", ") + ")", Doc: doc})
 						n++
+						// mixed: the first argument a literal (it lives in the compiled expression), the others from the document
+						if arity >= 2 && argClasses[idx[0]].name != "expref" {
+							for i, k := range idx {
+								if argClasses[k].name != "expref" {
+									if i == 0 {
+										args[i] = lit(argClasses[k].json)
+									} else {
+										args[i] = fmt.Sprintf("f%d", k)
+									}
+								}
+							}
+							run(t, Case{Property: prop, Kind: "diff", Expr: name + "(" + strings.Join(args, ", ") + ")", Doc: doc})
+							n++
+						}
 					}
 				}
 				// next tuple
@@ -1281,11 +1295,14 @@ func TestC11Positions(t *testing.T) {
 			for i := range elems {
 				elems[i] = strconv.Itoa((i*7)%11 - 3)
 			}
-			elems[p] = `"x"`
-			doc := "[" + strings.Join(elems, ",") + "]"
-			for _, e := range tmpls {
-				run(t, Case{Property: "C11", Kind: "diff", Expr: e, Doc: doc, Extra: map[string]interface{}{"cell": "position"}})
-				n++
+			// a string, then null (which constructs that drop nulls may drop too early) as the element that fails
+			for _, bad := range []string{`"x"`, "null"} {
+				elems[p] = bad
+				doc := "[" + strings.Join(elems, ",") + "]"
+				for _, e := range tmpls {
+					run(t, Case{Property: "C11", Kind: "diff", Expr: e, Doc: doc, Extra: map[string]interface{}{"cell": "position"}})
+					n++
+				}
 			}
 		}
 	}
